@@ -55,7 +55,7 @@ def ds_case(draw, layouts=("station", "grid"), one_site=False, whole_dirs=False,
         specs.append(s)
     return dict(f=f, dg=dg, layout=layout, nt=nt, npos=npos, nlat=nlat, nlon=nlon, specs=specs, winds=draw(st.booleans()), gz=draw(st.booleans()), ntime=draw(st.sampled_from([None, None, 1, 2, 3])),
                 as_site=draw(st.booleans()), packed=draw(st.booleans()), lon0=draw(st.sampled_from([150.25, -70.5, 359.0, 0.125])), minutes=draw(st.sampled_from([60, 180, 30])),
-                perm=draw(st.one_of(st.none(), st.none(), st.permutations(list(range(5 if layout == "grid" else 4))))), lat_desc=draw(st.booleans()), lon_desc=draw(st.booleans()))
+                perm=draw(st.one_of(st.none(), st.none(), st.permutations(list(range(5 if layout == "grid" else 4))))), lat_desc=draw(st.booleans()), lon_desc=draw(st.booleans()), t0=draw(st.integers(0, 3)))
 
 
 def build(case, allow_nan=True):
@@ -74,7 +74,9 @@ def build(case, allow_nan=True):
                 E[t, p] = np.nan
             else:
                 E[t, p] = gen.build_spectrum(s, len(f), len(d))[:, oi]
-    times = pd.date_range("2022-07-01 00:00:00", periods=nt, freq="%dmin" % case["minutes"])
+    # series also start shortly before the end of a month / year / leap day, so that they run across the boundary
+    t0 = ["2022-07-01 00:00:00", "2022-07-31 22:30:00", "2019-12-31 21:00:00", "2020-02-29 22:00:00"][case.get("t0", 0)]
+    times = pd.date_range(t0, periods=nt, freq="%dmin" % case["minutes"])
     if case["layout"] == "grid":
         nlat, nlon = case["nlat"], case["nlon"]
         lats = np.round(-35.000003 + 0.750001 * np.arange(nlat), 6)
